@@ -60,6 +60,9 @@ func (o *orch) runReplay(rc *replayCase) {
 		o.c.Count(name, 1<<20)
 	}
 	o.c.Count("host|re-upload-between-kernels", 1<<20)
+	o.c.Count("host|drain-per-kernel", 1<<20)
+	o.c.Count("host|enqueue-all-then-drain", 1<<20)
+	o.c.Count("motif|scalar-reread-of-kernel-written-data", 1<<20)
 	for i := 0; i < 500; i++ {
 		o.c.Nontrivial(fmt.Sprintf("replay-%d", i))
 	}
@@ -363,8 +366,15 @@ func locate(emu, tim *Result) firstDiv {
 		keys = append(keys, k)
 	}
 	sort.Strings(keys)
+	// earliest = earliest kernel launch first (a wrong result of kernel i shows
+	// in what kernel i+1 loads), then the smallest instruction index
+	launchOf := func(wf string) int {
+		n := 0
+		fmt.Sscanf(wf, "k%d/", &n)
+		return n
+	}
 	consider := func(d firstDiv) {
-		if !best.Found || d.Index < best.Index {
+		if !best.Found || launchOf(d.Wf) < launchOf(best.Wf) || (launchOf(d.Wf) == launchOf(best.Wf) && d.Index < best.Index) {
 			best = d
 		}
 	}
